@@ -40,7 +40,11 @@ struct InvNode { int sbx; std::vector<int> cbs; bool dtor = false; };  // tokens
 struct CbNode { std::vector<int> invs; int chg = -1; bool catches = false; int dtor_inv = -1; }; // invocations made from the callback body; chg >= 0: the body first switches its sandbox's transition state
 static std::vector<InvNode> g_inv;
 static std::vector<CbNode> g_cb;
-enum Phase { P_NONE, P_ARG, P_BODY, P_RESULT };
+enum Phase { P_NONE, P_ARG, P_BODY, P_RESULT, P_CBARG };
+// which conversions can abort depends on the ABI: invocation arguments / callback results narrow where the guest long is
+// narrower than the host's; callback arguments narrow where the guest int is WIDER than the host's
+template<typename B> constexpr bool narrows_to_guest() { if constexpr (be::BT<B>::foreign) return sizeof(ref::guest_t<CFG, long>) < sizeof(long); else return false; }
+template<typename B> constexpr bool narrows_to_app() { if constexpr (be::BT<B>::foreign) return sizeof(ref::guest_t<CFG, int>) > sizeof(int); else return false; }
 static Phase g_abort_phase = P_NONE;
 static int g_abort_at = -1;
 
@@ -93,7 +97,12 @@ static void* sim_state(int s) { return &g_state_pool[s][g_sim_state[s]]; }
 static MG<int> mg_run_node(MP cb, MG<long> id)
 {
   MG<int> sum = 0;
-  for (int tok : g_inv[static_cast<int>(id)].cbs) sum += static_cast<MG<int>>(VS::current()->template call_indirect<MG<long>, MG<int>>(cb, static_cast<MG<int>>(tok)));
+  for (int tok : g_inv[static_cast<int>(id)].cbs) {
+    MG<int> arg = static_cast<MG<int>>(tok);
+    // a guest whose int is wider than the application's can pass a value the callback's int parameter cannot hold
+    if constexpr (sizeof(MG<int>) > sizeof(int)) { if (g_abort_phase == P_CBARG && g_abort_at == tok) arg = (static_cast<MG<int>>(1) << 40) + tok; }
+    sum += static_cast<MG<int>>(VS::current()->template call_indirect<MG<long>, MG<int>>(cb, arg));
+  }
   return sum;
 }
 static int n_run_node(long (*cb)(int), long id)
@@ -139,7 +148,7 @@ static void sim_inv(int id, std::vector<c19::Ev>& out, void* key[2])
   out.push_back({ true, 0, "run_node", Ctx<B>::sym[s], sim_state(s) });
   try {
     // conversion aborts (unrepresentable argument / result) exist only where the guest ABI is narrower than the host's
-    if (g_abort_phase == P_ARG && g_abort_at == id && be::BT<B>::foreign) throw Abort{};
+    if (g_abort_phase == P_ARG && g_abort_at == id && narrows_to_guest<B>()) throw Abort{};
     for (int tok : g_inv[id].cbs) sim_cb<B>(tok, s, out, key);
   } catch (Abort&) {
     out.push_back({ false, 0, "run_node", Ctx<B>::sym[s], sim_state(s) });
@@ -153,6 +162,9 @@ static void sim_cb(int tok, int s, std::vector<c19::Ev>& out, void* key[2])
   out.push_back({ false, 1, "", key[s], sim_state(s) });
   bool dtor_done = false;
   try {
+    // the callback crossing is announced before its arguments are converted: an argument the application type cannot hold
+    // ends the crossing (OUT ... IN) without running the body -- and without running the destructors of the body's locals
+    if (g_abort_phase == P_CBARG && g_abort_at == tok && narrows_to_app<B>()) { dtor_done = true; throw Abort{}; }
     if (g_abort_phase == P_BODY && g_abort_at == tok) throw Abort{};
     if (g_cb[tok].chg >= 0) g_sim_state[s] = g_cb[tok].chg;
     for (int id : g_cb[tok].invs) {
@@ -161,7 +173,7 @@ static void sim_cb(int tok, int s, std::vector<c19::Ev>& out, void* key[2])
     }
     // the body's locals die before the interceptor converts the result
     if (g_cb[tok].dtor_inv >= 0) { dtor_done = true; sim_inv<B>(g_cb[tok].dtor_inv, out, key); }
-    if (g_abort_phase == P_RESULT && g_abort_at == tok && be::BT<B>::foreign) throw Abort{};
+    if (g_abort_phase == P_RESULT && g_abort_at == tok && narrows_to_guest<B>()) throw Abort{};
   } catch (Abort&) {
     if (g_cb[tok].dtor_inv >= 0 && !dtor_done) sim_inv<B>(g_cb[tok].dtor_inv, out, key); // destructor runs while the abort unwinds
     out.push_back({ true, 1, "", key[s], sim_state(s) });
@@ -209,7 +221,7 @@ static void one_run(const char* bn, void* key[2], bool expect_abort_possible, mo
   bool ab = mon::aborts([&] { run_inv<B>(0); });
   mon::evals();
   std::string desc = mon::fmt("tree with %zu invocations / %zu callbacks, abort injected: %s at %d", g_inv.size(), g_cb.size(),
-                              g_abort_phase == P_NONE ? "none" : (g_abort_phase == P_ARG ? "argument conversion of invocation" : (g_abort_phase == P_BODY ? "body of callback" : "result conversion of callback")), g_abort_at);
+                              g_abort_phase == P_NONE ? "none" : (g_abort_phase == P_ARG ? "argument conversion of invocation" : (g_abort_phase == P_BODY ? "body of callback" : (g_abort_phase == P_RESULT ? "result conversion of callback" : "argument conversion of callback"))), g_abort_at);
   if (ab != sim_aborted) {
     if (!expect_abort_possible && sim_aborted) return; // this backend cannot produce the injected abort (host ABI): not a case
     report(bn, "abort-injection", "abort-did-not-surface-as-expected", desc + mon::fmt(": aborted=%d expected=%d", ab, sim_aborted));
@@ -299,10 +311,15 @@ static void run_backend(mon::Rng& rng)
       g_abort_phase = P_NONE; g_abort_at = -1;
       one_run<B>(bn, key, true, rng);
       // one run per node and phase with an abort injected there
-      for (size_t id = 0; id < g_inv.size(); id++) { if (g_inv[id].dtor) continue; g_abort_phase = P_ARG; g_abort_at = id; one_run<B>(bn, key, be::BT<B>::foreign, rng); }
+      // (on a foreign ABI that does not narrow towards the guest the out-of-range values of these two phases are representable
+      // and would only surface later, as an abort of some other conversion: not driven there)
+      constexpr bool to_guest_phases = narrows_to_guest<B>() || !be::BT<B>::foreign;
+      if constexpr (to_guest_phases)
+        for (size_t id = 0; id < g_inv.size(); id++) { if (g_inv[id].dtor) continue; g_abort_phase = P_ARG; g_abort_at = id; one_run<B>(bn, key, narrows_to_guest<B>(), rng); }
       for (size_t tok = 0; tok < g_cb.size(); tok++) {
         g_abort_phase = P_BODY; g_abort_at = tok; one_run<B>(bn, key, true, rng);
-        g_abort_phase = P_RESULT; g_abort_at = tok; one_run<B>(bn, key, be::BT<B>::foreign, rng);
+        if constexpr (to_guest_phases) { g_abort_phase = P_RESULT; g_abort_at = tok; one_run<B>(bn, key, narrows_to_guest<B>(), rng); }
+        if constexpr (narrows_to_app<B>()) { g_abort_phase = P_CBARG; g_abort_at = tok; one_run<B>(bn, key, true, rng); }
       }
     }
   }
